@@ -15,8 +15,8 @@ record("ChangeToData", fields={})
 record("DataToChange", fields={"project": "Project"})
 
 contract("Resource.path", source=R + "Resource.path", inline=True, is_property=True, params={"self": "Resource"}, returns="Str")
-contract("File.is_folder", source=R + "File.is_folder", inline=True, params={"self": "File"}, returns="Bool")
-contract("Folder.is_folder", source=R + "Folder.is_folder", inline=True, params={"self": "Folder"}, returns="Bool")
+contract("File.is_folder", source=R + "File.is_folder", inline=True, params={"self": "File"}, returns="Bool", ensures=["not result"])
+contract("Folder.is_folder", source=R + "Folder.is_folder", inline=True, params={"self": "Folder"}, returns="Bool", ensures=["result"])
 contract("Resource.__init__", source=R + "Resource.__init__", inline=True, params={"self": "Resource", "project": "Project", "path": "Str"})
 contract("Project.get_file", source="rope.base.project:_Project.get_file", inline=True, params={"self": "Project", "path": "Str"}, returns="File")
 contract("Project.get_folder", source="rope.base.project:_Project.get_folder", inline=True, params={"self": "Project", "path": "Str"}, returns="Folder")
@@ -24,9 +24,17 @@ contract("ChangeContents.__init__", source=M + "ChangeContents.__init__", inline
          params={"self": "ChangeContents", "resource": "Resource", "new_contents": "Str", "old_contents": "Opt[Str]"}, defaults={"old_contents": "None"})
 contract("CreateResource.__init__", source=M + "CreateResource.__init__", inline=True, params={"self": "CreateResource", "resource": "Resource"})
 contract("RemoveResource.__init__", source=M + "RemoveResource.__init__", inline=True, params={"self": "RemoveResource", "resource": "Resource"})
+specfun("dest_of", ["Resource", "Str"], "Str", note="_get_destination_for_move(resource, destination)")
 contract("MoveResource.__init__", source=M + "MoveResource.__init__", inline=True,
-         params={"self": "MoveResource", "resource": "Resource", "new_location": "Str", "exact": "Bool"}, defaults={"exact": "False"})
+         params={"self": "MoveResource", "resource": "Resource", "new_location": "Str", "exact": "Bool"}, defaults={"exact": "False"},
+         modifies=["self.project", "self.resource", "self.new_resource"],
+         ensures=["self.resource == resource", "self.project == resource.project", "self.new_resource.project == resource.project",
+                  # the destination is the given location as it stands (exact) or what _get_destination_for_move makes of it; same kind as the source
+                  "self.new_resource._path == ite(exact, new_location, dest_of(resource, new_location))",
+                  "isinstance(self.new_resource, Folder) == isinstance(resource, Folder)"],
+         note="inlined into DataToChange.makeMoveResource (exact=True) and verified on its own for both modes")
 contract("_get_destination_for_move", abstract=True, params={"resource": "Resource", "destination": "Str"}, returns="Str",
+         ensures=["result == dest_of(resource, destination)"],
          note="only reached with exact=False; the reload path passes exact=True")
 
 specdef("is_folder_of", {"r": "Resource"}, "Bool", "isinstance(r, Folder)")
